@@ -2,3 +2,4 @@ import Miden.Props.C05Auto.P0
 import Miden.Props.C05Auto.P1
 import Miden.Props.C05Auto.P2
 import Miden.Props.C05Auto.P3
+import Miden.Props.C05Auto.P4
